@@ -4,6 +4,8 @@ package main
 // sentence it encodes; all are assumptions and are listed in the evidence when used.
 
 import (
+	"unicode/utf8"
+	"go/constant"
 	"fmt"
 	"go/token"
 	"go/types"
@@ -432,6 +434,10 @@ func modelBuilderWriteString(f *Frame, st *State, cc *ssa.CallCommon, args []Val
 	if !ok {
 		return e.havocVal(rt, "sb", st)
 	}
+	if c, ok := cc.Args[1].(*ssa.Const); ok && c.Value != nil && c.Value.Kind() == constant.String && utf8.ValidString(constant.StringVal(c.Value)) {
+		// a string constant whose bytes are well-formed UTF-8 (decided here, on the constant)
+		e.assume("true", e.utf8Valid(args[1].S))
+	}
 	builderAppend(f, st, key, args[1].S, "(slen "+args[1].S+")")
 	tup := rt.(*types.Tuple)
 	return Val{T: rt, Tuple: []Val{{T: tup.At(0).Type(), S: "(slen " + args[1].S + ")"}, {T: tup.At(1).Type(), S: "iface.nil"}}}
@@ -461,6 +467,8 @@ func modelBuilderWriteRune(f *Frame, st *State, cc *ssa.CallCommon, args []Val, 
 	rr, w := e.utf8dec(b, "0")
 	valid := fmt.Sprintf("(and (<= 0 %s) (<= %s 1114111) (not (and (<= 55296 %s) (<= %s 57343))))", r, r, r, r)
 	e.assume("true", fmt.Sprintf("(and (>= (slen %s) 1) (<= (slen %s) 4) (= %s (slen %s)) (= %s (ite %s %s 65533)) (=> (not %s) (= (slen %s) 3)) (=> (and %s (< %s 128)) (= (slen %s) 1)))", b, b, w, b, rr, valid, r, valid, b, valid, r, b))
+	// what WriteRune appends is well-formed UTF-8 (the encoding of r, or of U+FFFD for an invalid r)
+	e.assume("true", e.utf8Valid(b))
 	builderAppend(f, st, key, b, "(slen "+b+")")
 	tup := rt.(*types.Tuple)
 	return Val{T: rt, Tuple: []Val{{T: tup.At(0).Type(), S: "(slen " + b + ")"}, {T: tup.At(1).Type(), S: "iface.nil"}}}
